@@ -681,6 +681,11 @@ impl Task {
                             || iter.state().is_abort()
                     }) {
                         self.set_state(TaskState::Skipped);
+                        // publish the decision like any other state change, otherwise the
+                        // stored task keeps saying 'pending'
+                        if let Some(task) = self.proc.task(&self.id) {
+                            let _ = self.runtime.scher().emit_task_event(&task);
+                        }
                     }
                 }
 
